@@ -175,6 +175,14 @@ func (d *vC11Dump) val(rv reflect.Value, depth int) string {
 				c = "X"
 			}
 			fs[i] = c + " " + d.val(rv.Field(i), depth+1)
+			switch fs[i] {
+			case "X (Sc 0)":
+				fs[i] = "Xz"
+			case "X PtN":
+				fs[i] = "Xn"
+			case "U (Sc 0)":
+				fs[i] = "Uz"
+			}
 		}
 		return "(St " + cqList(fs) + ")"
 	}
